@@ -181,6 +181,23 @@ def r04_1(ctx, rr):
             got = strict_arg(s.node)
             rr.instances += 1
             rr.check(got == strict, "%s:STRICT" % short_fn(s.body.key), "%s must call %s::<%s>, found <%s>" % (s.body.key, callee, strict, got), s.loc)
+    # the boundary element is read only from a non-empty structure: on an empty one the documented answer is
+    # None, not the panic of get()
+    for fn in (r"^traits::indexed_dict::Succ::succ$", r"^traits::indexed_dict::Succ::succ_strict$", r"^traits::indexed_dict::Pred::pred$", r"^traits::indexed_dict::Pred::pred_strict$"):
+        b = F.one(fn)
+        s_ = ("var", "self", b.params[0]["id"])
+        gets = []
+
+        def on_get(W, n, K, gets=gets):
+            if cname(F, n) == "IndexedSeq::get" and W.debug_depth == 0:
+                gets.append((n, K.entails(("b", ("call", "IndexedSeq::is_empty", (s_,)), False)) or K.entails(atom_ne(("call", "IndexedSeq::len", (s_,)), ("int", 0)))))
+        Walker(F, b, on_node=on_get).run()
+        for n, ok in gets:
+            rr.instances += 1
+            key = "%s:boundary-read-needs-nonempty" % short_fn(b.key)
+            rr.ob(ok, key=key)
+            if not ok:
+                rr.violate(key, "%s reads the boundary element with `%s` before the structure is known to be non-empty: on an empty dictionary the call panics (index out of bounds) where the documented answer is None" % (b.key, show(F, n)[:60]), F.loc(n))
     # nobody overrides the checked defaults
     for tr in ("traits::indexed_dict::Succ", "traits::indexed_dict::Pred"):
         for im in F.impls:
@@ -633,6 +650,15 @@ def r12_4(ctx, rr):
     for path in (r"^bits::bit_vec::BitVec::<B>::get$", r"^bits::bit_vec::BitVec::<B>::set$", r"^bits::bit_vec::AtomicBitVec::<B>::get$", r"^bits::bit_vec::AtomicBitVec::<B>::set$", r"^bits::bit_vec::AtomicBitVec::<B>::swap$"):
         run(path, "panic", lambda P: [("any", [atom_le(L, P["#1"]) for L in lens(P["self"])])])
 
+    # iterator constructors: a start position is rejected only when it lies beyond the end (`from == len` is the
+    # legitimate empty suffix and must yield an exhausted iterator)
+    for path in (r"^bits::bit_field_vec::BitFieldVectorUncheckedIterator::<'a, W, B>::new$",
+                 r"^bits::bit_field_vec::BitFieldVectorReverseUncheckedIterator::<'a, W, B>::new$",
+                 r"^bits::bit_field_vec::BitFieldVecIterator::<'a, W, B>::new$",
+                 r"^traits::bit_field_slice::BitFieldSliceIterator::<'a, \w+, B>::new$",
+                 r"^dict::elias_fano::EliasFanoIterator::<'a, H, L>::new_from$"):
+        run(path, "panic", lambda P: [("len-below", P["#1"], P["#2"])])
+
     def set_reasons(P):
         out = [("any", [atom_le(L, P["#1"]) for L in lens(P["self"])])]
         out.append(("valuefit", P["#2"]))
@@ -691,6 +717,15 @@ _old_goal_holds = goal_holds
 
 
 def goal_holds(K, goal):  # noqa: F811
+    if goal[0] == "len-below":
+        # some length of the receiver (field len/n or any `..::len(receiver)`) is established to be < the index
+        r, idx = goal[1], goal[2]
+        for a in K.atoms:
+            if a[0] == "le" and a[3] <= -1 and a[2] == idx:
+                A = a[1]
+                if (A[0] == "call" and (A[1] == "len" or A[1].endswith("::len")) and A[2] == (r,)) or (A[0] == "field" and A[1] == r and A[2] in ("len", "n")):
+                    return True
+        return False
     if goal[0] == "valuefit":
         v = goal[1]
         for a in K.atoms:
@@ -729,6 +764,8 @@ def goal_show(goal):  # noqa: F811
         return "word index >= number of words of the high bits"
     if goal[0] == "scanned-past":
         return "value < decoded element"
+    if goal[0] == "len-below":
+        return "len(%s) < %s" % (tshow(goal[1]), tshow(goal[2]))
     return _old_goal_show(goal)
 
 
